@@ -55,13 +55,14 @@ func runC05(s *kernel.Sim) {
 		nExtra = tp.Range(1, 8)
 	}
 	if plausible {
-		nExtra = tp.Range(1, 3)
+		nExtra = 1 + tp.Weighted([]int{4, 1, 1}) // mostly exactly one extra edge: the accepted ones are the interesting ones
 	}
 	var mutations []string
 	for i := 0; i < nExtra; i++ {
 		var c c04conn
 		inResp := tp.Chance(1, 2)
 		if plausible {
+			inResp = tp.Chance(2, 3) // the response direction has the weaker entry rules (early-response connections, no root)
 			var pool []string
 			for _, n := range names {
 				isResp := strings.HasPrefix(n, "r")
@@ -78,6 +79,22 @@ func runC05(s *kernel.Sim) {
 				continue
 			}
 			c = c04conn{from: pool[tp.Choose(len(pool))], to: pool[tp.Choose(len(pool))]}
+			if inResp && tp.Chance(1, 2) {
+				// prefer the processors an early response continues with: they are
+				// entered without passing the root of the response direction
+				var cont []string
+				for _, e := range f.resp {
+					if strings.HasPrefix(e.from, "g") && e.to != "" {
+						cont = append(cont, e.to)
+					}
+				}
+				if len(cont) > 0 {
+					c.from = cont[tp.Choose(len(cont))]
+					if tp.Chance(1, 2) {
+						c.to = c.from
+					}
+				}
+			}
 			if strings.HasPrefix(c.to, "g") && inResp {
 				c.to = ""
 			}
@@ -132,9 +149,9 @@ func runC05(s *kernel.Sim) {
 		}
 		files["flows/f1.yaml"] = g.def("a.com/c").YAML()
 	}
-	quotaW := []int{5, 2, 1, 1, 1}
+	quotaW := []int{5, 2, 1, 1, 1, 2}
 	if plausible {
-		quotaW = []int{3, 1}
+		quotaW = []int{3, 1, 0, 0, 0, 1}
 	}
 	switch tp.Weighted(quotaW) {
 	case 1:
@@ -145,6 +162,25 @@ func runC05(s *kernel.Sim) {
 	case 3: // child without parent
 		files["quotas/q.yaml"] = strings.ReplaceAll(c08Quota, "a.com/p1", "a.com/c") + "internal_limits:\n  - id: child\n    parent_id: nobody\n    filter:\n      url: a.com/c\n    strategy:\n      fixed_window:\n        max: 1\n        interval: 1\n        interval_unit: second\n"
 		mutations = append(mutations, "child-without-parent")
+	case 5: // a hierarchy of internal limits, listed in any order (a child may precede its parent)
+		lim := func(id, parent string) string {
+			return fmt.Sprintf("  - id: %s\n    parent_id: %s\n    filter:\n      url: a.com/c\n    strategy:\n      fixed_window:\n        max: %d\n        interval: 1\n        interval_unit: minute\n", id, parent, 100+tp.Choose(3))
+		}
+		ids := []string{"l1", "l2", "l3"}[:tp.Range(1, 3)]
+		var lims []string
+		for i, id := range ids {
+			parent := "cq"
+			if i > 0 && tp.Chance(2, 3) {
+				parent = ids[tp.Choose(i)] // nested below an earlier-numbered limit
+			}
+			lims = append(lims, lim(id, parent))
+		}
+		q := strings.ReplaceAll(c08Quota, "a.com/p1", "a.com/c") + "internal_limits:\n"
+		for _, k := range tp.Perm(len(lims)) {
+			q += lims[k]
+		}
+		files["quotas/q.yaml"] = q
+		mutations = append(mutations, "internal-limit-hierarchy:"+firstWords(strings.ReplaceAll(q, "\n", " "), 400))
 	case 4: // two hosts in two files
 		files["quotas/q.yaml"] = strings.ReplaceAll(c08Quota, "a.com/p1", "a.com/c")
 		files["quotas/q2.yaml"] = strings.ReplaceAll(strings.ReplaceAll(c08Quota, "cq", "cq2"), "a.com/p1", "a.com/d")
